@@ -86,12 +86,12 @@ def jobs_for(tier, rnd):
             if G.well_formed(c, G.RULES_NULLABLE) and not any(x[0] in ('byte', 'bt') for x in walk(c)):
                 strat.append(c)
     rnd.shuffle(strat)
-    es = d2 + strat[:400 if tier == 'quick' else 1500]
+    es = d2 + strat[:400 if tier == 'quick' else 900]
     variants = [(i, w, k) for i in IGNS for w in ('before', 'after') for k in (False, True, 'let')]
     jobs, gid = [], 0
     pairs = {}
     for n, e in enumerate(es):
-        vs = [variants[(n + j * 5) % len(variants)] for j in range(2 if tier == 'quick' else 4)]
+        vs = [variants[(n + j * 5) % len(variants)] for j in range(2 if tier == 'quick' else 3)]
         for ign, where, klass in vs:
             alpha = ALPHA.get(ign, 'ab ')
             TX = G.texts(alpha, 4, extra=(' a b ', 'a  b', 'ab  ', '  ab', ' a  a  b', ' b a', '  b ab', ' b  a b') + EXTRA.get(ign, ()))
